@@ -37,7 +37,7 @@ def real_schema(tree, sid, version):
 
 
 def worker(task):
-    seed, workdir, nmut = task
+    seed, workdir, nmut, slot = task
     rnd = random.Random(seed)
     cfg, _ = gencfg.gen_config_tree(rnd, rnd.choice([1, 2, 3, 3]), 'layout')
     recs = []
@@ -52,6 +52,11 @@ def worker(task):
             seen.add(oi)
             picks.append((oi, site))
     rnd.shuffle(picks)
+    # round-robin over the whole catalogue: this configuration's slots come first, so that every operator is applied
+    # several times in every run whatever the seed
+    nops = len(faults.OPS)
+    mine = [(slot * nmut + j) % nops for j in range(nmut)]
+    picks.sort(key=lambda x: (0 if x[0] in mine else 1))
     extra = [x for x in app if x not in picks]
     for oi, site in (picks + extra)[:nmut]:
         m = faults.apply(cfg, oi, site, rnd)
@@ -122,7 +127,7 @@ def run(c):
             c.known_finding(e, 'an unused field type alias holding an invalid field type object (size 99) is accepted')
     c.coverage['finding_witnesses'] = wst
     ncfg, nmut = (120, 40) if thorough else (16, 22)
-    tasks = [(c.seed * 100000 + i, os.path.join(work, f'c{i}'), nmut) for i in range(ncfg)]
+    tasks = [(c.seed * 100000 + i, os.path.join(work, f'c{i}'), nmut, i) for i in range(ncfg)]
     with ProcessPoolExecutor(max_workers=min(common.NPROC, 14), mp_context=mp.get_context('fork')) as ex:
         results = [r for rs in ex.map(worker, tasks, chunksize=1) for r in rs]
     pk3 = hfront.pkg_dir_files(3)
